@@ -119,8 +119,8 @@ extern "C" fn on_fatal(sig: i32) {
 
 /// Install the signal handlers and start the watchdog. Idempotent.
 pub fn install() {
-    if INSTALLED.swap(true, SeqCst) {
-        return;
+    if INSTALLED.swap(true, SeqCst) || cfg!(miri) {
+        return; // under miri there are no signal handlers and no watchdog
     }
     unsafe {
         for sig in [libc::SIGSEGV, libc::SIGBUS, libc::SIGILL, libc::SIGFPE, libc::SIGABRT] {
